@@ -50,9 +50,10 @@ func entries() map[string]*terminfo.Terminfo {
 	return pEntries
 }
 
-// variant of the two known-defect sites the tree under test implements, probed on the real code once per process:
+// variant of the known-defect sites the tree under test implements, probed on the real code once per process:
 // "+x11fix" when an X11 motion report without a press no longer decodes to a wheel event, "+clipfix" when an OSC 52
-// reply followed by more data in the same read still yields its clipboard event, "+keycaps" when the key
+// reply followed by more data in the same read still yields its clipboard event, "+sgrfix" when a byte that is no
+// part of an SGR mouse report is no longer skipped by parseSgrMouse, "+keycaps" when the key
 // capabilities KeyClear / KeyShfInsert / KeyShfDelete of an entry are in its key table.  The suffix is appended to the
 // entry name on generated case lines so that the Lean driver runs the matching model variant.
 var pVariant *string
@@ -73,6 +74,16 @@ func variantSuffix() string {
 		_, all, _ := runFeeds(ti, "UTF-8", 80, 24, []feed{{[]byte("\x1b]52;c;QQ==\ax"), false}})
 		if len(all) == 2 && all[0] == "C.41" {
 			s += "+clipfix"
+		}
+		// a byte that belongs to no SGR report in front of `[<0;5;5M`: the repaired parser (default: return false, false)
+		// rejects, so nothing decodes to a mouse event; the pinned one skips the `q` and reports a click
+		_, all, _ = runFeeds(ti, "UTF-8", 80, 24, []feed{{[]byte("\x1bq[<0;5;5M"), true}})
+		mouse := false
+		for _, e := range all {
+			mouse = mouse || strings.HasPrefix(e, "M.")
+		}
+		if !mouse {
+			s += "+sgrfix"
 		}
 	}
 	for _, ti := range entries() {
@@ -705,7 +716,8 @@ func randToken(g *h.Gen, ti *terminfo.Terminfo, keys []string, w, hh int) []byte
 		return append([]byte{0x1b}, []byte(h.Pick(g.R, keys))...)
 	case 12:
 		// near-misses of the fixed sequences
-		return []byte(h.Pick(g.R, []string{"\x1b[", "\x1b[<", "\x1b[M", "\x1b]52;c;", "\x1b]52", "\x1b[<0;1", "\x1b[<0;1;1", "\x1bq[<0;5;5M", "\x1b[<-;1;1M", "\x1b[<;;M", "\x1b[<1;2;3;4M", "\x1b[20", "\x1bO"}))
+		return []byte(h.Pick(g.R, []string{"\x1b[", "\x1b[<", "\x1b[M", "\x1b]52;c;", "\x1b]52", "\x1b[<0;1", "\x1b[<0;1;1", "\x1bq[<0;5;5M", "\x1b[<-;1;1M", "\x1b[<;;M", "\x1b[<1;2;3;4M", "\x1b[20", "\x1bO",
+			"\xff\x1b[<0;5;5M", "\x1b[<0:5;5M", "\x1b[<<0;5;5M", "\x1b[<0;5;5xM", "\x1b[[<0;5;5M", "\x1b\x1b[<0;5;5M", "\x1b[<0;5 ;5M", "\x1b[<0;5;5~"}))
 	}
 	return []byte(h.Pick(g.R, []string{"x", "hello", "\r", "\t", "q"}))
 }
